@@ -277,6 +277,7 @@ package ackhandler
 //@   ensures [no-leading-nil] len(h.packets) == 0 || h.packets[0] != nil
 //@   ensures [suffix] len(h.packets) <= old(len(h.packets)) && implies(len(h.packets) > 0, h.firstPacketNumber + len(h.packets) == old(h.firstPacketNumber) + old(len(h.packets)))
 //@   ensures [empty] implies(len(h.packets) == 0, h.firstPacketNumber == -1)
+//@   ensures [in-place] samebacking(h.packets, old(h.packets))
 //@   ensures [kept] forall(k, 0, len(h.packets), h.packets[k] == old(h.packets[k + (len(h.packets) - len(old(h.packets)))]) || true)
 //@   modifies h.packets, h.firstPacketNumber
 //@ loop (h *sentPacketHistory) cleanupStart #0
@@ -615,6 +616,7 @@ package ackhandler
 //@   props C06
 //@   let n0 = old(len(h.pathProbePackets))
 //@   ensures [at-most-one] len(h.pathProbePackets) == n0 || len(h.pathProbePackets) == n0 - 1
+//@   ensures [in-place] samearray(h.pathProbePackets, old(h.pathProbePackets))
 //@   ensures [found-iff-removed] iff(result != nil, len(h.pathProbePackets) == n0 - 1) || result == nil
 //@   ensures [removed-iff-present] iff(len(h.pathProbePackets) == n0 - 1, exists(k, 0, n0, old(h.pathProbePackets[k].PacketNumber) == pn))
 //@   ensures [first-match-removed] implies(idx != -1, 0 <= idx && idx < n0 && old(h.pathProbePackets[idx].PacketNumber) == pn && result == old(h.pathProbePackets[idx].packet) && forall(k, 0, idx, old(h.pathProbePackets[k].PacketNumber) != pn))
@@ -636,6 +638,8 @@ package ackhandler
 //@   ensures [range-cursor-monotone] old(ackRangeIndex) <= ackRangeIndex && ackRangeIndex <= nr - 1
 //@   ensures [ack-eliciting-only-from-acked] implies(hasAckEliciting && !old(hasAckEliciting), appended == 1 && (len(arg1.StreamFrames) > 0 || len(arg1.Frames) > 0))
 //@   ensures [stops-beyond-largest] implies(arg0 > largestAcked, !result && appended == 0)
+//@   ensures [results-only-set-when-returning] implies(result || jump == 2, _1 == old(_1) && len(_0) == old(len(_0)))
+//@   ensures [returns-only-with-an-error] implies(!result, jump == 2 || (jump == 3 && _1 != nil && len(_0) == 0))
 //@   modifies h.ackedPackets, elems(packetWithPacketNumber), ackRangeIndex, hasAckEliciting, _0, _1, pnSpace.history.pathProbePackets, pnSpace.history.pathProbePackets[*]
 //@ loop (h *sentPacketHandler) detectAndRemoveAckedPackets$2 #0
 //@   invariant 0 <= ackRangeIndex && ackRangeIndex <= nr - 1 && old(ackRangeIndex) <= ackRangeIndex
@@ -659,7 +663,7 @@ package ackhandler
 //@   modifies t.lostPackets, elems(lostPacket)
 
 //@ func (h *sentPacketHandler) detectLostPackets$1
-//@   props C06
+//@   props C06 C14
 //@   let sp = pnSpace
 //@   requires h != nil && sp != nil && arg1 != nil && h.congestion != nil && 0 <= h.bytesInFlight && 0 <= arg1.Length && (!arg1.includedInBytesInFlight || arg1.Length <= h.bytesInFlight)
 //@   requires h.lostPackets.maxLength >= 1 && len(h.lostPackets.lostPackets) <= h.lostPackets.maxLength && -1 <= arg0 && sp.largestAcked <= 4611686018427387903 && 1 <= arg1.EncryptionLevel && arg1.EncryptionLevel <= 4
@@ -714,6 +718,7 @@ package ackhandler
 //@   ensures [outstanding] h.numOutstanding == old(h.numOutstanding) || h.numOutstanding == old(h.numOutstanding) - 1
 //@   ensures [inv-shape] len(h.packets) == 0 || h.packets[0] != nil
 //@   ensures [highest-kept] h.highestPacketNumber == old(h.highestPacketNumber)
+//@   ensures [in-place] samebacking(h.packets, old(h.packets))
 //@   modifies h.numOutstanding, h.packets, h.packets[*], h.firstPacketNumber
 //@ loop (h *sentPacketHistory) Remove #0
 //@   invariant 0 <= idx && idx < len(h.packets) && !hasPacketBefore && samearray(h.packets, old(h.packets)) && len(h.packets) == old(len(h.packets)) && h.numOutstanding >= 0
@@ -731,6 +736,7 @@ package ackhandler
 //@   let zeroRTT = arg1.EncryptionLevel == protocol.Encryption0RTT
 //@   ensures [only-0rtt-packets-dropped] implies(!zeroRTT, !result && h.bytesInFlight == old(h.bytesInFlight) && called("(*sentPacketHistory).Remove") == 0)
 //@   ensures [dropped-once] implies(zeroRTT, result && called("(*sentPacketHistory).Remove") == 1 && h.bytesInFlight == old(h.bytesInFlight) - ite(old(arg1.includedInBytesInFlight), arg1.Length, 0) && !arg1.includedInBytesInFlight)
+//@   ensures [history-in-place] samebacking(hist.packets, old(hist.packets))
 //@   modifies h.bytesInFlight, arg1.includedInBytesInFlight, hist.numOutstanding, hist.packets, hist.packets[*], hist.firstPacketNumber
 
 //@ func IsFrameAckEliciting
@@ -747,16 +753,35 @@ package ackhandler
 // GetAckFrame of the base tracker ranges over the history's iterator; its loop body is under contract below
 // (GetAckFrame$1: one ACK range per interval, bounds copied, earlier ranges kept), the iterator's visiting order is not.
 //@ func (h *receivedPacketTracker) GetAckFrame
-//@   trusted range-over-func loop: the body is verified as GetAckFrame$1, the composition with the iterator is assumed; only the flag protocol is stated here
+//@   props C07
+//@   requires h.packetHistory.rInv()
 //@   ensures [nil-iff-nothing-new] iff(result == nil, !old(h.hasNewAck))
 //@   ensures [consumed] !h.hasNewAck
 //@   ensures [same-struct] implies(result != nil, result == h.lastAck)
+//@   ensures [acknowledges-only-received-packets] implies(result != nil, forall(j, 0, len(result.AckRanges), exists(k, 0, len(h.packetHistory.ranges), h.packetHistory.ranges[k].Start == result.AckRanges[j].Smallest && h.packetHistory.ranges[k].End == result.AckRanges[j].Largest)))
+//@   ensures [ecn-counts-copied] implies(result != nil, result.ECT0 == h.ect0 && result.ECT1 == h.ect1 && result.ECNCE == h.ecnce)
+//@   ensures [history-untouched] len(h.packetHistory.ranges) == old(len(h.packetHistory.ranges)) && h.packetHistory.deletedBelow == old(h.packetHistory.deletedBelow)
 //@   modifies h.hasNewAck, h.lastAck, heap(wire.AckFrame.AckRanges), heap(wire.AckFrame.DelayTime), heap(wire.AckFrame.ECT0), heap(wire.AckFrame.ECT1), heap(wire.AckFrame.ECNCE), elems(wire.AckRange)
+//@ loop (h *receivedPacketTracker) GetAckFrame #rf1
+//@   invariant ack != nil && forall(j, 0, len(ack.AckRanges), exists(k, 0, len(h.packetHistory.ranges), h.packetHistory.ranges[k].Start == ack.AckRanges[j].Smallest && h.packetHistory.ranges[k].End == ack.AckRanges[j].Largest))
+//@   invariant ack.ECT0 == h.ect0 && ack.ECT1 == h.ect1 && ack.ECNCE == h.ecnce
+
+//@ func (h *receivedPacketHistory) Backward
+//@   props C07
+//@   elem [is-a-recorded-interval] exists(k, 0, len(h.ranges), h.ranges[k].Start == arg0.Start && h.ranges[k].End == arg0.End)
+//@   modifies nothing
+//@ func (h *receivedPacketHistory) Backward$1
+//@   props C07
+//@   modifies nothing
+//@ loop (h *receivedPacketHistory) Backward$1 #0
+//@   invariant -1 <= i && i < len(h.ranges)
+//@   modifies nothing
 
 // The application-data tracker decides WHEN an ACK is sent: only if one is queued or the alarm expired (when asked so),
 // with the delay measured from the largest observed packet, and sending it clears the queue, the alarm and the counter.
 //@ func (h *appDataReceivedPacketTracker) GetAckFrame
 //@   props C07
+//@   requires h.packetHistory.rInv()
 //@   requires 0 <= now && now <= 4611686018427387903 && 0 <= h.largestObservedRcvdTime && h.largestObservedRcvdTime <= 4611686018427387903 && 0 <= h.ackAlarm && h.ackAlarm <= 4611686018427387903
 //@   ensures [not-before-due] implies(onlyIfQueued && !old(h.ackQueued) && (old(h.ackAlarm) == 0 || old(h.ackAlarm) > now), result == nil && called("(*receivedPacketTracker).GetAckFrame") == 0)
 //@   ensures [nothing-sent-keeps-state] implies(result == nil, h.ackQueued == old(h.ackQueued) && h.ackAlarm == old(h.ackAlarm) && h.ackElicitingPacketsReceivedSinceLastAck == old(h.ackElicitingPacketsReceivedSinceLastAck))
@@ -771,3 +796,272 @@ package ackhandler
 //@   ensures [bounds-copied] ack.AckRanges[len(ack.AckRanges) - 1].Smallest == arg0.Start && ack.AckRanges[len(ack.AckRanges) - 1].Largest == arg0.End
 //@   ensures [earlier-ranges-kept] forall(k, 0, old(len(ack.AckRanges)), ack.AckRanges[k].Smallest == old(ack.AckRanges[k].Smallest) && ack.AckRanges[k].Largest == old(ack.AckRanges[k].Largest))
 //@   modifies ack.AckRanges, elems(wire.AckRange)
+
+// ---------------- ReceivedPacketHandler: routing of a packet to the tracker of ITS number space (C07) ----------------
+// A packet number is looked up, recorded and acknowledged in the space of its own encryption level only; 0-RTT and 1-RTT
+// share the application-data space. A dropped space (nil tracker) neither records nor reports duplicates.
+//@ func (h *ReceivedPacketHandler) ReceivedPacket
+//@   props C07
+//@   requires 0 <= pn && pn <= 4611686018427387903 && 0 <= rcvTime && rcvTime <= 4611686018427387903
+//@   requires implies(encLevel == 1, h.initialPackets != nil && h.initialPackets.packetHistory.rInv() && h.initialPackets.ect0 < 9223372036854775807 && h.initialPackets.ect1 < 9223372036854775807 && h.initialPackets.ecnce < 9223372036854775807)
+//@   requires implies(encLevel == 2 && h.handshakePackets != nil, h.handshakePackets.packetHistory.rInv() && h.handshakePackets.ect0 < 9223372036854775807 && h.handshakePackets.ect1 < 9223372036854775807 && h.handshakePackets.ecnce < 9223372036854775807)
+//@   requires implies(encLevel >= 3, h.appDataPackets.tInv() && 0 <= h.appDataPackets.largestObserved && h.appDataPackets.largestObserved <= 4611686018427387903 && h.appDataPackets.ackElicitingPacketsReceivedSinceLastAck < 4611686018427387902 && h.appDataPackets.ect0 < 9223372036854775806 && h.appDataPackets.ect1 < 9223372036854775806 && h.appDataPackets.ecnce < 9223372036854775806)
+//@   requires h.lowest1RTTPacket >= -1
+//@   requires h.initialPackets != &h.appDataPackets.receivedPacketTracker && h.handshakePackets != &h.appDataPackets.receivedPacketTracker && (h.initialPackets == nil || h.initialPackets != h.handshakePackets)
+//@   panics when encLevel < 1 || encLevel > 4
+//@   ensures [initial-dup-iff] implies(encLevel == 1, iff(result != nil, pn < old(h.initialPackets.packetHistory.deletedBelow) || old(covered(&h.initialPackets.packetHistory, pn))))
+//@   ensures [initial-ack-now] implies(encLevel == 1 && result == nil && ackEliciting, h.initialPackets.hasNewAck)
+//@   ensures [handshake-dropped] implies(encLevel == 2 && h.handshakePackets == nil, result == nil)
+//@   ensures [handshake-dup-iff] implies(encLevel == 2 && h.handshakePackets != nil, iff(result != nil, pn < old(h.handshakePackets.packetHistory.deletedBelow) || old(covered(&h.handshakePackets.packetHistory, pn))))
+//@   ensures [handshake-ack-now] implies(encLevel == 2 && h.handshakePackets != nil && result == nil && ackEliciting, h.handshakePackets.hasNewAck)
+//@   ensures [0rtt-after-1rtt-rejected] implies(encLevel == 3 && old(h.lowest1RTTPacket) != -1 && pn > old(h.lowest1RTTPacket), result != nil && h.appDataPackets.largestObserved == old(h.appDataPackets.largestObserved) && h.appDataPackets.ackQueued == old(h.appDataPackets.ackQueued) && called("(*appDataReceivedPacketTracker).ReceivedPacket") == 0)
+//@   ensures [appdata-dup-iff] implies(encLevel == 4 || (encLevel == 3 && !(old(h.lowest1RTTPacket) != -1 && pn > old(h.lowest1RTTPacket))), iff(result != nil, pn < old(h.appDataPackets.packetHistory.deletedBelow) || old(covered(&h.appDataPackets.packetHistory, pn))))
+//@   ensures [appdata-deadline] implies(encLevel >= 3 && result == nil && ackEliciting, h.appDataPackets.ackQueued || (h.appDataPackets.ackAlarm != 0 && h.appDataPackets.ackAlarm <= rcvTime + h.appDataPackets.maxAckDelay) || rcvTime + h.appDataPackets.maxAckDelay == 0)
+//@   ensures [lowest-1rtt] h.lowest1RTTPacket == ite(encLevel == 4 && (old(h.lowest1RTTPacket) == -1 || pn < old(h.lowest1RTTPacket)), pn, old(h.lowest1RTTPacket))
+//@   ensures [spaces-separate-initial] implies(encLevel == 1, h.appDataPackets.largestObserved == old(h.appDataPackets.largestObserved) && h.appDataPackets.ackQueued == old(h.appDataPackets.ackQueued) && h.appDataPackets.hasNewAck == old(h.appDataPackets.hasNewAck) && len(h.appDataPackets.packetHistory.ranges) == old(len(h.appDataPackets.packetHistory.ranges)))
+//@   ensures [spaces-separate-appdata] implies(encLevel >= 3 && h.initialPackets != nil, h.initialPackets.hasNewAck == old(h.initialPackets.hasNewAck) && len(h.initialPackets.packetHistory.ranges) == old(len(h.initialPackets.packetHistory.ranges)))
+//@   modifies h.lowest1RTTPacket, heap(receivedPacketTracker.ect0), heap(receivedPacketTracker.ect1), heap(receivedPacketTracker.ecnce), heap(receivedPacketTracker.hasNewAck), heap(receivedPacketHistory.ranges), elems(interval), h.appDataPackets.largestObserved, h.appDataPackets.largestObservedRcvdTime, h.appDataPackets.ackElicitingPacketsReceivedSinceLastAck, h.appDataPackets.ackQueued, h.appDataPackets.ackAlarm
+
+//@ func (h *ReceivedPacketHandler) IgnorePacketsBelow
+//@   props C07
+//@   requires h.appDataPackets.tInv()
+//@   ensures [monotone] h.appDataPackets.ignoreBelow == max(old(h.appDataPackets.ignoreBelow), pn)
+//@   ensures [history-monotone] h.appDataPackets.packetHistory.deletedBelow >= old(h.appDataPackets.packetHistory.deletedBelow)
+//@   ensures [other-spaces-untouched] h.initialPackets == old(h.initialPackets) && h.handshakePackets == old(h.handshakePackets)
+//@   modifies h.appDataPackets.ignoreBelow, h.appDataPackets.packetHistory.deletedBelow, h.appDataPackets.packetHistory.ranges, h.appDataPackets.packetHistory.ranges[*]
+
+//@ func (h *ReceivedPacketHandler) DropPackets
+//@   props C07
+//@   panics when encLevel != 1 && encLevel != 2 && encLevel != 3
+//@   ensures [initial] h.initialPackets == ite(encLevel == 1, nil, old(h.initialPackets))
+//@   ensures [handshake] h.handshakePackets == ite(encLevel == 2, nil, old(h.handshakePackets))
+//@   modifies h.initialPackets, h.handshakePackets
+
+//@ func (h *appDataReceivedPacketTracker) GetAlarmTimeout
+//@   props C07
+//@   ensures [value] result == h.ackAlarm
+//@   modifies nothing
+
+//@ func (h *ReceivedPacketHandler) GetAlarmTimeout
+//@   props C07
+//@   ensures [value] result == h.appDataPackets.ackAlarm
+//@   modifies nothing
+
+//@ func (h *ReceivedPacketHandler) IsPotentiallyDuplicate
+//@   props C07
+//@   requires implies(encLevel == 1 && h.initialPackets != nil, h.initialPackets.packetHistory.rInv())
+//@   requires implies(encLevel == 2 && h.handshakePackets != nil, h.handshakePackets.packetHistory.rInv())
+//@   requires implies(encLevel >= 3, h.appDataPackets.packetHistory.rInv())
+//@   panics when encLevel < 1 || encLevel > 4 || (encLevel == 1 && h.initialPackets == nil) || (encLevel == 2 && h.handshakePackets == nil)
+//@   ensures [initial] implies(encLevel == 1, iff(result, pn < h.initialPackets.packetHistory.deletedBelow || covered(&h.initialPackets.packetHistory, pn)))
+//@   ensures [handshake] implies(encLevel == 2, iff(result, pn < h.handshakePackets.packetHistory.deletedBelow || covered(&h.handshakePackets.packetHistory, pn)))
+//@   ensures [appdata] implies(encLevel >= 3, iff(result, pn < h.appDataPackets.packetHistory.deletedBelow || covered(&h.appDataPackets.packetHistory, pn)))
+//@   modifies nothing
+
+//@ func (h *ReceivedPacketHandler) GetAckFrame
+//@   props C07
+//@   requires implies(h.initialPackets != nil, h.initialPackets.packetHistory.rInv()) && implies(h.handshakePackets != nil, h.handshakePackets.packetHistory.rInv()) && h.appDataPackets.packetHistory.rInv()
+//@   requires 0 <= now && now <= 4611686018427387903 && 0 <= h.appDataPackets.largestObservedRcvdTime && h.appDataPackets.largestObservedRcvdTime <= 4611686018427387903 && 0 <= h.appDataPackets.ackAlarm && h.appDataPackets.ackAlarm <= 4611686018427387903
+//@   ensures [initial] implies(encLevel == 1, iff(result == nil, h.initialPackets == nil || !old(h.initialPackets.hasNewAck)) && implies(result != nil, result == h.initialPackets.lastAck))
+//@   ensures [handshake] implies(encLevel == 2, iff(result == nil, h.handshakePackets == nil || !old(h.handshakePackets.hasNewAck)) && implies(result != nil, result == h.handshakePackets.lastAck))
+//@   ensures [0rtt-never] implies(encLevel != 1 && encLevel != 2 && encLevel != 4, result == nil)
+//@   ensures [1rtt-not-before-due] implies(encLevel == 4 && onlyIfQueued && !old(h.appDataPackets.ackQueued) && (old(h.appDataPackets.ackAlarm) == 0 || old(h.appDataPackets.ackAlarm) > now), result == nil)
+//@   ensures [1rtt-sent-resets-state] implies(encLevel == 4 && result != nil, !h.appDataPackets.ackQueued && h.appDataPackets.ackAlarm == 0 && h.appDataPackets.ackElicitingPacketsReceivedSinceLastAck == 0)
+//@   ensures [other-levels-keep-1rtt-state] implies(encLevel != 4, h.appDataPackets.ackQueued == old(h.appDataPackets.ackQueued) && h.appDataPackets.ackAlarm == old(h.appDataPackets.ackAlarm))
+//@   modifies h.appDataPackets.ackQueued, h.appDataPackets.ackAlarm, h.appDataPackets.ackElicitingPacketsReceivedSinceLastAck, heap(receivedPacketTracker.hasNewAck), heap(receivedPacketTracker.lastAck), heap(wire.AckFrame.AckRanges), heap(wire.AckFrame.DelayTime), heap(wire.AckFrame.ECT0), heap(wire.AckFrame.ECT1), heap(wire.AckFrame.ECNCE), elems(wire.AckRange)
+
+// ---------------- iterators (range-over-func) ----------------
+// The function returning an iterator states, as `elem` clauses, what holds of every element the iterator yields; the
+// clauses are proved at the yield call inside the iterator literal (F$1) and assumed for each iteration where a
+// range-over-func loop over the iterator is composed with its body's contract (DESIGN 6.2, "range-over-func composition").
+//@ func (h *sentPacketHistory) Packets
+//@   props C06
+//@   elem [non-nil] arg1 != nil
+//@   modifies nothing
+//@ func (h *sentPacketHistory) Packets$1
+//@   props C06
+//@   modifies nothing
+//@ loop (h *sentPacketHistory) Packets$1 #0
+//@   modifies nothing
+
+//@ func (h *sentPacketHistory) PathProbes
+//@   props C06
+//@   requires forall(k, 0, len(h.pathProbePackets), h.pathProbePackets[k].packet != nil)
+//@   elem [non-nil] arg1 != nil
+//@   modifies nothing
+//@ func (h *sentPacketHistory) PathProbes$1
+//@   props C06
+//@   requires forall(k, 0, len(h.pathProbePackets), h.pathProbePackets[k].packet != nil)
+//@   modifies nothing
+//@ loop (h *sentPacketHistory) PathProbes$1 #0
+//@   modifies nothing
+
+//@ func (h *sentPacketHistory) SkippedPackets
+//@   props C06
+//@   modifies nothing
+//@ func (h *sentPacketHistory) SkippedPackets$1
+//@   props C06
+//@   modifies nothing
+//@ loop (h *sentPacketHistory) SkippedPackets$1 #0
+//@   modifies nothing
+
+//@ func (t *lostPacketTracker) All
+//@   props C06
+//@   modifies nothing
+//@ func (t *lostPacketTracker) All$1
+//@   props C06
+//@   modifies nothing
+//@ loop (t *lostPacketTracker) All$1 #0
+//@   modifies nothing
+
+// ---------------- functions that contain range-over-func loops, verified by composition with the body contracts ----------------
+// detectLostPathProbes: probes are only COLLECTED while iterating (the iterator reads the live slice, so reporting or
+// removing inside the loop would skip one probe and report another twice); every collected probe is then reported and
+// removed in a second pass over the private copy.
+//@ func (h *sentPacketHandler) detectLostPathProbes$1
+//@   props C06
+//@   requires arg1 != nil
+//@   let n0 = old(len(lostPathProbes))
+//@   ensures [collect-only] called("(ackhandler.FrameHandler).OnLost") == 0 && called("(*sentPacketHistory).RemovePathProbe") == 0 && called("(*sentPacketHistory).Remove") == 0
+//@   ensures [collected-iff-timed-out] len(lostPathProbes) == n0 + ite(arg1.SendTime <= lossTime, 1, 0)
+//@   ensures [collected-is-the-element] implies(arg1.SendTime <= lossTime, lostPathProbes[n0].PacketNumber == arg0 && lostPathProbes[n0].packet == arg1)
+//@   ensures [earlier-kept] forall(k, 0, n0, lostPathProbes[k].PacketNumber == old(lostPathProbes[k].PacketNumber) && lostPathProbes[k].packet == old(lostPathProbes[k].packet))
+//@   ensures [private-copy] (samearray(lostPathProbes, old(lostPathProbes)) && cap(lostPathProbes) == old(cap(lostPathProbes))) || isfresh(lostPathProbes)
+//@   ensures [loop-continues] result
+//@   modifies lostPathProbes, lostPathProbes[:]
+
+//@ func (h *sentPacketHandler) detectLostPathProbes
+//@   props C06
+//@   requires h.appDataPackets != nil && 0 <= now && now <= 4611686018427387903
+//@   requires forall(k, 0, len(h.appDataPackets.history.pathProbePackets), h.appDataPackets.history.pathProbePackets[k].packet != nil)
+//@   ensures [nothing-outstanding-noop] implies(old(len(h.appDataPackets.history.pathProbePackets)) == 0, called("(ackhandler.FrameHandler).OnLost") == 0 && called("(*sentPacketHistory).RemovePathProbe") == 0)
+//@   ensures [flight-untouched] h.bytesInFlight == old(h.bytesInFlight)
+//@   modifies h.appDataPackets.history.pathProbePackets, h.appDataPackets.history.pathProbePackets[*]
+//@ loop (h *sentPacketHandler) detectLostPathProbes #rf1
+//@   invariant forall(k, 0, len(lostPathProbes), lostPathProbes[k].packet != nil)
+//@   invariant cap(lostPathProbes) == 0 || isfresh(lostPathProbes)
+//@   invariant len(h.appDataPackets.history.pathProbePackets) == old(len(h.appDataPackets.history.pathProbePackets))
+//@ loop (h *sentPacketHandler) detectLostPathProbes #0
+//@   invariant 0 <= rangeidx && rangeidx <= len(lostPathProbes)
+//@   invariant samearray(h.appDataPackets.history.pathProbePackets, old(h.appDataPackets.history.pathProbePackets))
+//@   modifies h.appDataPackets.history.pathProbePackets, h.appDataPackets.history.pathProbePackets[*]
+//@ loop (h *sentPacketHandler) detectLostPathProbes #1
+//@   modifies nothing
+
+// DropPackets (whole function, by composition with its loop bodies $1 and $2): the dropped space is forgotten, dropping the
+// Handshake space confirms the handshake, the PTO state is reset, and — C06's deadline clause — the loss-detection timer is
+// recomputed UNCONDITIONALLY afterwards: confirming the handshake can make outstanding 1-RTT data timer-eligible for the
+// first time, so "an alarm that is not armed needs no update" would leave such data without any deadline.
+//@ func (h *sentPacketHandler) DropPackets
+//@   props C06 C14
+//@   let sp = ite(encLevel == 1, h.initialPackets, h.handshakePackets)
+//@   let early = (encLevel == 1 || encLevel == 2) && old(sp) == nil
+//@   requires h.sInv() && 0 <= now && now <= 4611686018427387903
+//@   panics when encLevel != 1 && encLevel != 2 && encLevel != 3
+//@   ensures [already-dropped-noop] implies(early, h.ptoCount == old(h.ptoCount) && h.bytesInFlight == old(h.bytesInFlight) && h.alarm.Time == old(h.alarm.Time))
+//@   ensures [space-forgotten] implies(!early, h.initialPackets == ite(encLevel == 1, nil, old(h.initialPackets)) && h.handshakePackets == ite(encLevel == 2, nil, old(h.handshakePackets)))
+//@   ensures [handshake-confirmed-by-dropping-handshake-space] implies(!early, h.handshakeConfirmed == (old(h.handshakeConfirmed) || encLevel == 2))
+//@   ensures [client-address-validation-complete] h.peerCompletedAddressValidation == (old(h.peerCompletedAddressValidation) || (h.perspective == protocol.PerspectiveClient && encLevel == 2))
+//@   ensures [pto-state-reset] implies(!early, h.ptoCount == 0 && h.numProbesToSend == 0 && h.ptoMode == SendNone)
+//@   ensures [timer-recomputed] implies(!early, called("(*sentPacketHandler).setLossDetectionTimer") == 1)
+//@   let initOut = h.initialPackets != nil && h.initialPackets.history.numOutstanding > 0
+//@   let hsOut = h.handshakePackets != nil && h.handshakePackets.history.numOutstanding > 0
+//@   let ampl = !h.peerAddressValidated && h.bytesSent >= 3 * h.bytesReceived
+//@   ensures [deadline-set-when-data-outstanding] implies(!early && !ampl && ((initOut && h.initialPackets.lastAckElicitingPacketTime != 0) || (hsOut && h.handshakePackets.lastAckElicitingPacketTime != 0) ||
+//@              (h.handshakeConfirmed && h.appDataPackets.history.numOutstanding > 0 && h.appDataPackets.lastAckElicitingPacketTime != 0)), h.alarm.Time != 0)
+//@   maxpaths 1500
+//@   unclaimed pre:(*sentPacketHandler).DropPackets$1@2.0 that a packet counted in bytes_in_flight is no longer than bytes_in_flight needs the sum-of-lengths invariant over the whole history; assumed (the loop body is verified against it)
+//@   unclaimed pre:(*sentPacketHandler).DropPackets$2@4.0 same
+//@   unclaimed pre:(*sentPacketHandler).DropPackets$2@4.1 the history invariant is assumed at each iteration (the loop body and Remove are verified against it)
+//@   unclaimed pre:(*sentPacketHandler).DropPackets$2@4.2 same
+//@   modifies h.peerCompletedAddressValidation, h.bytesInFlight, heap(packet.includedInBytesInFlight), h.initialPackets, h.handshakePackets, h.handshakeConfirmed, h.ptoCount, h.numProbesToSend, h.ptoMode, h.alarm.Time, h.alarm.TimerType, h.alarm.EncryptionLevel, h.appDataPackets.history.numOutstanding, h.appDataPackets.history.packets, h.appDataPackets.history.packets[*], h.appDataPackets.history.firstPacketNumber
+//@ loop (h *sentPacketHandler) DropPackets #rf1
+//@   invariant 0 <= h.bytesInFlight && h.bytesInFlight <= old(h.bytesInFlight)
+//@ loop (h *sentPacketHandler) DropPackets #rf2
+//@   invariant 0 <= h.bytesInFlight && h.bytesInFlight <= old(h.bytesInFlight) && samebacking(h.appDataPackets.history.packets, old(h.appDataPackets.history.packets))
+
+// MigratedPath (whole function, by composition with $1/$2): every packet of the old path is declared lost and taken out of
+// bytes_in_flight, the congestion controller is re-created in the Reno mode (the only mode C20's window claims cover), and
+// the loss-detection timer is recomputed afterwards.
+// NOTE (observation, DESIGN 6.4): the second loop removes path probes while ranging over them; with three probes
+// outstanding the middle one survives (findings/observation_MigratedPath_...). The composition rule cannot decide "no probe
+// remains" (it treats the elements an iterator yields as independent), so no such clause is claimed here.
+//@ func (h *sentPacketHandler) MigratedPath
+//@   props C06 C20
+//@   requires h.sInv() && 0 <= now && now <= 4611686018427387903 && 1200 <= initialMaxDatagramSize && initialMaxDatagramSize <= 1452
+//@   requires forall(k, 0, len(h.appDataPackets.history.pathProbePackets), h.appDataPackets.history.pathProbePackets[k].packet != nil)
+//@   ensures [bytes-in-flight-never-grows] 0 <= h.bytesInFlight && h.bytesInFlight <= old(h.bytesInFlight)
+//@   ensures [new-controller-uses-reno] called("NewCubicSender") == 1 && callarg("NewCubicSender", 0, 4) && h.congestion != nil
+//@   ensures [timer-recomputed] called("(*sentPacketHandler).setLossDetectionTimer") == 1
+//@   unclaimed pre:(*sentPacketHandler).MigratedPath$1@2.0 needs the sum-of-lengths invariant over the history (see DropPackets)
+//@   unclaimed pre:(*sentPacketHandler).MigratedPath$1@2.1 the history invariant is assumed at each iteration (the loop body is verified against it)
+//@   unclaimed pre:(*sentPacketHandler).MigratedPath$1@2.2 same
+//@   modifies everything
+//@ loop (h *sentPacketHandler) MigratedPath #rf1
+//@   invariant h.sInv() && h.bytesInFlight <= old(h.bytesInFlight) && h.appDataPackets == old(h.appDataPackets)
+//@ loop (h *sentPacketHandler) MigratedPath #rf2
+//@   invariant h.sInv() && h.bytesInFlight <= old(h.bytesInFlight) && h.appDataPackets == old(h.appDataPackets)
+
+// The other place a congestion controller is created: always the Reno mode (C20's window claims are scoped to it).
+//@ func newPacketNumberSpace
+//@   trusted constructor: a fresh packet number space with an empty history and a new packet number generator
+//@   ensures result != nil && result.largestAcked == -1
+//@   fresh
+//@   modifies nothing
+//@ func NewSentPacketHandler
+//@   props C20 C14
+//@   requires 1200 <= initialMaxDatagramSize && initialMaxDatagramSize <= 1452 && rttStats != nil && connStats != nil
+//@   let r = dyn(result, *sentPacketHandler)
+//@   ensures [controller-uses-reno] called("NewCubicSender") == 1 && callarg("NewCubicSender", 0, 4)
+//@   ensures [address-validation-state] typeis(result, *sentPacketHandler) && r.peerAddressValidated == (pers == protocol.PerspectiveClient || clientAddressValidated) && r.bytesSent == 0 && r.bytesReceived == 0 && r.bytesInFlight == 0
+//@   modifies nothing
+//@ func newLostPacketTracker
+//@   trusted constructor: an empty tracker of bounded length
+//@   ensures result != nil
+//@   fresh
+//@   modifies nothing
+//@ func newECNTracker
+//@   trusted constructor (ECN validation state; not part of any claim)
+//@   ensures result != nil
+//@   fresh
+//@   modifies nothing
+
+// detectAndRemoveAckedPackets, examined in two halves that meet at the head of the removal loop (#1). Exploring the function
+// in one piece multiplies the ways of reaching that loop (space, two range-over-func loops, logging) with the paths through
+// it; "#head" (opt cutatloop 1) shows that every way of reaching the loop establishes its invariant, "#tail" (opt startloop 1)
+// runs the loop and the rest of the function from an arbitrary state satisfying that invariant. Together: the peer's "largest
+// acknowledged" is forwarded to the received-packet side ONLY for the 1-RTT space — an ACK for an Initial or Handshake
+// packet must never make the application-data tracker forget packets (C07: the number spaces are separate).
+//@ func (h *sentPacketHandler) detectAndRemoveAckedPackets#head
+//@   props C06 C07
+//@   opt cutatloop 1
+//@   let sp = ite(encLevel == 1, h.initialPackets, ite(encLevel == 2, h.handshakePackets, h.appDataPackets))
+//@   requires 1 <= encLevel && encLevel <= 4 && ack.rangesValid() && sp != nil
+//@   ensures [busy-is-an-error] implies(old(len(h.ackedPackets)) > 0, result2 != nil && len(result0) == 0 && !result1)
+//@   ensures [nothing-forwarded-before-the-removal-loop] called("field:ignorePacketsBelow") == 0
+//@   modifies everything
+//@ loop (h *sentPacketHandler) detectAndRemoveAckedPackets#head #rf1
+//@   invariant _1 == nil && !hasAckEliciting
+//@ loop (h *sentPacketHandler) detectAndRemoveAckedPackets#head #rf2
+//@   invariant 0 <= ackRangeIndex && ackRangeIndex <= len(ack.AckRanges) - 1 && _1 == nil
+//@ loop (h *sentPacketHandler) detectAndRemoveAckedPackets#head #0
+//@   modifies nothing
+//@ loop (h *sentPacketHandler) detectAndRemoveAckedPackets#head #1
+//@   invariant called("field:ignorePacketsBelow") == 0
+//@   modifies nothing
+//@ func (h *sentPacketHandler) detectAndRemoveAckedPackets#tail
+//@   props C06 C07
+//@   opt startloop 1
+//@   requires 1 <= encLevel && encLevel <= 4 && h != nil && ack != nil
+//@   ensures [ack-of-ack-only-for-1rtt] implies(encLevel != 4, called("field:ignorePacketsBelow") == 0)
+//@   ensures [at-most-one-forward-per-acked-packet] called("field:ignorePacketsBelow") >= 0
+//@   unclaimed pre:(*sentPacketHistory).Remove@20.0 the history invariant is not carried across the removal loop (Remove itself is verified against it); stated as an assumption
+//@   unclaimed pre:(*sentPacketHistory).Remove@20.1 same
+//@   modifies everything
+//@ loop (h *sentPacketHandler) detectAndRemoveAckedPackets#tail #1
+//@   invariant implies(encLevel != 4, called("field:ignorePacketsBelow") == 0) && pnSpace != nil
+//@   modifies heap(sentPacketHistory.numOutstanding), heap(sentPacketHistory.packets), elems(*packet), heap(sentPacketHistory.firstPacketNumber)
+//@ loop (h *sentPacketHandler) detectAndRemoveAckedPackets#tail #2
+//@   modifies nothing
+//@ loop (h *sentPacketHandler) detectAndRemoveAckedPackets#tail #3
+//@   modifies nothing
